@@ -57,6 +57,20 @@ PAYLOADS = {
     "bad_utf8": b"zq\xff<b>\xfe",
 }
 FOLDING_PAYLOADS = ("fullwidth", "smallform", "fw_amp_quotes", "decomposing", "overlong", "bad_utf8")
+# markup that is already encoded in some other layer's notation: it must reach the page as the literal text it is
+# (escaped once more where it contains `&`), never decoded
+PAYLOADS.update({
+    "percent": b"zq%3Cscript%3Ex%3C%2Fscript%3E",
+    "percent_amp_quot": b"zq%26lt%3Bb%26gt%3B%22%27",
+    "percent_double": b"zq%253Cb%253E",
+    "entity": b"zq&lt;script&gt;x&lt;/script&gt;",
+    "entity_numeric": b"zq&#60;b&#x3e;&#0060;",
+    "entity_double": b"zq&amp;lt;b&amp;gt;",
+    "plus_and_u": b"zq+%u003Cb%u003E+\\u003cb\\x3e",
+})
+ENCODED_PAYLOADS = ("percent", "percent_amp_quot", "percent_double", "entity", "entity_numeric", "entity_double", "plus_and_u")
+# payloads whose reflection is checked literally (ASCII, no quotes or blanks that repr() would change)
+LITERAL_PAYLOADS = ("plain", "amp", "percent", "percent_amp_quot", "percent_double", "entity", "entity_numeric", "entity_double")
 TEMPLATE_TAGS = ["html", "head", "title", "/title", "/head", "body", "h1", "/h1", "p", "/p", "/body", "/html"]
 ALLOWED_REFS = {"&amp;", "&lt;", "&gt;", "&quot;", "&#x27;", "&#39;"}
 
@@ -271,10 +285,11 @@ def judge_page(t: Tally, feats, case, status, body: bytes, payload: bytes):
     p_text = pg.text.get("p", "")
     plain = html.unescape(p_text)
     reflected = MARK.decode() in plain or MARK.decode() in html.unescape(text)
-    if payload == PAYLOADS["amp"] and MARK.decode() in plain:
+    if payload in [PAYLOADS[k] for k in LITERAL_PAYLOADS] and MARK.decode() in plain:
+        # (compared case-insensitively: some positions, e.g. HTTP/2 field names, are lower-cased before they are shown)
         i = plain.index(MARK.decode())
-        if not plain[i:].startswith(payload.decode()):
-            problems.append(("pre-escaped input not escaped again", plain[i:i + 20]))
+        if not plain[i:].lower().startswith(payload.decode().lower()):
+            problems.append(("encoded input is not shown literally (decoded or not escaped again)", plain[i:i + 40]))
     t.judge("payload_only_escaped", not problems, feats, case, "every reflected character escaped, refs in %s" % sorted(ALLOWED_REFS), {"problems": problems, "body": body[:300]})
     return reflected
 
@@ -487,7 +502,7 @@ def cases():
         for pay in PAYLOADS:
             if pay == "crlf" and not crlf_ok:
                 continue
-            folding = pay in FOLDING_PAYLOADS  # every position, but only GET without follower (the page does not depend on them)
+            folding = pay in FOLDING_PAYLOADS or pay in ENCODED_PAYLOADS  # every position, but only GET without follower (the page does not depend on them)
             for m in (METHODS[:1] if folding else METHODS):
                 for fol in ((False,) if folding else (False, True)):
                     out.append({"proto": "h1", "producer": prod, "payload": pay, "method": m, "follower": fol})
@@ -496,7 +511,7 @@ def cases():
         for pay in PAYLOADS:
             if pay == "crlf" and not crlf_ok:
                 continue
-            for m in (METHODS[:1] if pay in FOLDING_PAYLOADS else METHODS):
+            for m in (METHODS[:1] if (pay in FOLDING_PAYLOADS or pay in ENCODED_PAYLOADS) else METHODS):
                 for val in (True, False):
                     out.append({"proto": "h2", "producer": prod, "payload": pay, "method": m, "validate": val})
     return out
